@@ -61,6 +61,9 @@ class T:
 TInt, TReal, TBool, TStr, TNone, TKey, TAny = (T(x) for x in ('int', 'real', 'bool', 'str', 'none', 'key', 'any'))
 
 
+TVec = T('vec')
+
+
 def TRef(cls): return T('ref', cls)
 def TDict(vt): return T('dict', vt)          # vt: TReal or a TRef/TList... (stored as Int)
 def TList(et): return T('list', et)
@@ -82,6 +85,8 @@ def smt_sort(t):
         return B
     if t.k == 'key':
         return Key
+    if t.k == 'vec':
+        return Vec
     raise OutOfSubset('no SMT sort for %r' % (t,))
 
 
@@ -487,6 +492,8 @@ class Engine:
                 return vreal(to_real(x) / to_real(y))
             if isinstance(op, ast.Pow) and z3.is_int_value(b.t) and b.t.as_long() == 2:
                 return mk(x * x)
+        if a.ty.k == 'vec' or b.ty.k == 'vec':
+            return self.vec_arith(op, a, b, st, line)
         name = {ast.Add: '__add__', ast.Sub: '__sub__', ast.Mult: '__mul__', ast.Div: '__truediv__',
                 ast.Pow: '__pow__'}.get(type(op))
         rname = {ast.Add: '__radd__', ast.Sub: '__rsub__', ast.Mult: '__rmul__', ast.Div: '__rtruediv__', ast.Pow: '__rpow__'}.get(type(op))
@@ -502,6 +509,33 @@ class Engine:
             st.pc.append(z3.BoolVal(False))
             return vreal(0)
         raise OutOfSubset('operator %s on %r, %r at line %d' % (type(op).__name__, a.ty, b.ty, line))
+
+    def vec_arith(self, op, a, b, st, line):
+        """numpy 1-D arrays as mathematical vectors (assumed external algebra); shape mismatch is numpy's
+        broadcasting ValueError, modelled as a safety obligation"""
+        if isinstance(op, ast.Mult) and a.ty.k in ('int', 'real') and b.ty.k == 'vec':
+            r = vscale(to_real(a.t), b.t)
+            st.pc.append(vdim(r) == vdim(b.t))
+            return V(TVec, r, py='fresh')
+        if isinstance(op, ast.Mult) and b.ty.k in ('int', 'real') and a.ty.k == 'vec':
+            r = vscale(to_real(b.t), a.t)
+            st.pc.append(vdim(r) == vdim(a.t))
+            return V(TVec, r, py='fresh')
+        if isinstance(op, ast.Add) and a.ty.k == 'vec' and b.ty.k == 'vec' and (a.t.eq(VZ) or b.t.eq(VZ)):
+            return V(TVec, b.t if a.t.eq(VZ) else a.t, py='fresh')
+        if isinstance(op, ast.Add) and a.ty.k == 'vec' and b.ty.k == 'vec':
+            # VZ is the python scalar 0 (broadcasts against any shape); otherwise shapes must agree
+            ok = z3.Or(a.t == VZ, b.t == VZ, vdim(a.t) == vdim(b.t))
+            self.emit('safe.broadcast@%d' % line, st, ok, line, tag='property')
+            st.pc.append(ok)
+            st.pc.append(vdim(vadd(a.t, b.t)) == vdim(a.t))
+            r = z3.If(a.t == VZ, b.t, z3.If(b.t == VZ, a.t, vadd(a.t, b.t)))
+            return V(TVec, r, py='fresh')
+        if isinstance(op, ast.Add) and a.ty.k == 'int' and z3.is_int_value(a.t) and a.t.as_long() == 0 and b.ty.k == 'vec':
+            return V(TVec, b.t, py='fresh')       # 0 + v : scalar broadcast, a new array equal to v
+        if isinstance(op, ast.Add) and b.ty.k == 'int' and z3.is_int_value(b.t) and b.t.as_long() == 0 and a.ty.k == 'vec':
+            return V(TVec, a.t, py='fresh')
+        raise OutOfSubset('vector operator %s on %r, %r at line %d' % (type(op).__name__, a.ty, b.ty, line))
 
     def ev_BinOp(self, e, st):
         a = self.ev(e.left, st)
@@ -771,6 +805,10 @@ class Engine:
                     return vint(st.heap.len(v.t))
                 if v.ty.k == 'tuple':
                     return vint(len(v.items))
+                if v.ty.k == 'dict':
+                    dom = st.heap.dom(v.t)
+                    st.pc += [dcard(dom) >= 0, (dcard(dom) == 0) == (dom == z3.K(Key, False))]
+                    return vint(dcard(dom))
             if n in ('max', 'min') and len(args) == 2 and all(a.ty.k == 'int' for a in args):
                 a, b = args
                 return vint(z3.If((a.t >= b.t) if n == 'max' else (a.t <= b.t), a.t, b.t))
@@ -791,6 +829,12 @@ class Engine:
             return self.apply_contract(st, self.reg.lookup_function(what[1]), args, kw, line, what[1])
         if what[0] == 'attr' and what[1] == ('module', 'warnings') and what[2] == 'warn':
             return VNONE          # dropped (extraction report)
+        if what[0] == 'attr' and what[1] == ('module', 'np') and what[2] == 'zeros' and len(args) == 1 and args[0].ty.k == 'int':
+            st.pc.append(vdim(vzero(args[0].t)) == args[0].t)
+            return V(TVec, vzero(args[0].t), py='fresh')
+        if what[0] == 'attr' and what[1] == ('module', 'np') and what[2] == 'dot' and len(args) == 2 and all(x.ty.k == 'vec' for x in args):
+            self.emit('safe.dot_shapes@%d' % line, st, vdim(args[0].t) == vdim(args[1].t), line, tag='aux')
+            return vreal(vdot(args[0].t, args[1].t))
         if what[0] == 'attr':
             handler = self.reg.external(what)
             if handler:
@@ -937,6 +981,7 @@ class Engine:
         a = self.bind_args(c, args, kw, line)
         a = c.adapt_args(self, st, a, line)
         S0 = st.heap.copy()
+        st.pc += c.axioms()
         for lab, f in c.requires(S0, a):
             self.emit('call.pre[%s:%s]@%d' % (label, lab, line), st, f, line, tag='aux')
         # exceptional exits
@@ -1027,6 +1072,12 @@ class Engine:
     def assign_to(self, target, v, st, line):
         if isinstance(target, ast.Name):
             self.note_local(target.id)
+            hint = getattr(self.c, 'local_types', {}).get(target.id)
+            if hint and v.ty.k == 'key':
+                ok = z3.And(is_Obj(v.t), isinstance_f(st.heap.A('cls'), oid(v.t), hint))
+                self.emit('safe.local_type[%s:%s]@%d' % (target.id, hint, line), st, ok, line, tag='aux')
+                st.pc.append(ok)
+                v = V(TRef(hint), oid(v.t))
             st.env[target.id] = v
             return
         if isinstance(target, ast.Tuple):
@@ -1095,6 +1146,8 @@ class Engine:
                 return [st]
             raise OutOfSubset('augmented subscript store on %r at line %d' % (base.ty, s.lineno))
         cur = self.ev(t, st)
+        if cur.ty.k == 'vec' and cur.py != 'fresh':
+            raise OutOfSubset('in-place update of a numpy array that is not locally created (aliasing) at line %d' % s.lineno)
         new = self.arith(s.op, cur, self.ev(s.value, st), st, s.lineno)
         self.assign_to(t, new, st, s.lineno)
         return [st]
@@ -1104,12 +1157,30 @@ class Engine:
         self.flush(st)
         out = []
         a = st.fork(c)
+        self.narrow(s.test, a)
         if self.feasible(a):
             out += self.run_block(s.body, a)
         b = st.fork(z3.Not(c))
         if self.feasible(b):
             out += self.run_block(s.orelse, b)
         return out
+
+    def narrow(self, test, st):
+        """after `type(x) == C` / `isinstance(x, C)` holds, a dict key x is known to be an object of class C"""
+        name = cname = None
+        if (isinstance(test, ast.Compare) and len(test.ops) == 1 and isinstance(test.ops[0], ast.Eq)
+                and isinstance(test.left, ast.Call) and isinstance(test.left.func, ast.Name) and test.left.func.id == 'type'
+                and len(test.left.args) == 1 and isinstance(test.left.args[0], ast.Name) and isinstance(test.comparators[0], ast.Name)):
+            name, cname = test.left.args[0].id, test.comparators[0].id
+        if (isinstance(test, ast.Call) and isinstance(test.func, ast.Name) and test.func.id == 'isinstance' and len(test.args) == 2
+                and isinstance(test.args[0], ast.Name) and isinstance(test.args[1], ast.Name)):
+            name, cname = test.args[0].id, test.args[1].id
+        if name in st.env and cname in CLASS_TAGS and cname not in ('tuple', 'dict', 'list', 'str'):
+            v = st.env[name]
+            if v.ty.k == 'key':
+                st.env[name] = V(TRef(cname), oid(v.t))      # the test put is_Obj(v) and the class into the path condition
+            elif v.ty.k == 'ref' and v.ty.a[0] is None:
+                st.env[name] = V(TRef(cname), v.t)
 
     def st_Return(self, s, st):
         v = self.ev(s.value, st) if s.value is not None else VNONE
@@ -1246,6 +1317,13 @@ class Engine:
         def ctx(state, pos):
             return LoopCtx(self, entry, state, it, pos, s)
 
+        for name in spec.get('real_vars', []):
+            if name in entry.env and entry.env[name].ty.k == 'int':
+                entry.env[name] = vreal(to_real(entry.env[name].t))
+        for name in spec.get('vec_vars', []):
+            v0 = entry.env.get(name)
+            if v0 is not None and v0.ty.k == 'int' and z3.is_int_value(v0.t) and v0.t.as_long() == 0:
+                entry.env[name] = V(TVec, VZ, py='fresh')       # python 0 as the neutral element of vector addition
         # ---- init
         pos0 = self.loop_pos_initial(it)
         for lab, f in spec['inv'](ctx(entry, pos0)):
@@ -1282,6 +1360,8 @@ class Engine:
         pos = self.loop_pos_symbolic(it, h, entry)
         h.pc += [f for _, f in spec['inv'](ctx(h, pos))]
         h.pc += pos['assume']
+        if 'lemmas' in spec:
+            h.pc += spec['lemmas'](ctx(h, pos))       # definitional instances of spec functions (ghost)
         body_st = h.fork()
         body_st.ghost[n] = pos
         self.bind_targets(s, body_st, it, pos, entry)
@@ -1334,6 +1414,7 @@ class Engine:
         if v.ty.k in ('tuple', 'py', 'none', 'typeof', 'exc', 'set', 'range'):
             raise OutOfSubset('loop modifies variable %s of type %r' % (name, v.ty))
         nv = fresh_value(v.ty, name)
+        nv.py = v.py
         return nv
 
     def discover_mods(self, s, entry, it, modified, n):
@@ -1354,10 +1435,10 @@ class Engine:
                     raise
         pos = self.loop_pos_symbolic(it, h, entry)
         h.ghost[n] = pos
-        self.bind_targets(s, h, it, pos, entry)
         saved = (self.exits, self.pending_exits, self.obls, self.loop_ord, self.discovery, self.prune)
         self.exits, self.pending_exits, self.discovery, self.prune = [], [], True, False
         try:
+            self.bind_targets(s, h, it, pos, entry)
             ends = self.run_block(s.body, h)
             all_states = ends + [e.state for e in self.exits]
         finally:
@@ -1405,7 +1486,7 @@ class Engine:
         if it['kind'] == 'dict':
             seen = fresh('seen', KB)
             kq = fresh('k', Key)
-            return dict(seen=seen, assume=[z3.ForAll([kq], seen[kq] == entry.heap.has(it['d'], kq))])
+            return dict(seen=seen, assume=[z3.ForAll([kq], seen[kq] == entry.heap.has(it['d'], kq)), seen == entry.heap.dom(it['d'])])
         i = fresh('i', I)
         if it['kind'] == 'range':
             return dict(i=i, assume=[i == z3.If(it['hi'] >= it['lo'], it['hi'], it['lo'])])
@@ -1464,6 +1545,7 @@ class Engine:
         for lab, f in c.requires(H0, args):
             st.pc.append(f)
         st.pc += c.type_invariants(H0)
+        st.pc += c.axioms()
         self.args, self.H0 = args, H0
         pre_state = st.fork()
         try:
@@ -1551,6 +1633,9 @@ class Engine:
             return v
         if ty.k == 'list' and v.ty.k == 'list':
             return v
+        if v.ty.k == 'opt' and v.ty.a[0] == ty:
+            self.emit('post[result_not_none]@%d' % line, st, z3.Not(v.none), line)
+            return V(ty, v.t)
         raise OutOfSubset('returned %r where the contract declares %r (line %d)' % (v.ty, ty, line))
 
     def check_raise_exit(self, ex, args, H0):
